@@ -170,7 +170,7 @@ def rule_r4(ctx) -> RuleResult:
         raise AnalysisError("parse_attrs: finditer vanished")
     ppat = ctx.index.fold("parser", pats[0].args[0])
     ptree = sre_parse.parse(ppat)
-    allowed = lambda ch: ch in URLSAFE or ch in " \"'"  # noqa: E731
+    allowed = lambda ch: ch in URLSAFE or ch in " \"'="  # noqa: E731
     # drop the leading \b of the tag_fn group: it is relative to the preceding tag name / whitespace
     a_items = [it for it in one_attr if not (it[0] is sre_c.AT)]
     b_items = [it for it in ptree if not (it[0] is sre_c.AT)]
@@ -187,7 +187,7 @@ def rule_r4(ctx) -> RuleResult:
     # table attributes: attr_assignment_pair must accept what parse_attrs needs, i.e. each pair it accepts is parsed in full
     pair = ctx.index.const("parser", "attr_assignment_pair")
     cex = rx.included_in_prefix(str(pair), None, thorough=ctx.thorough, items_b=b_items, flags_b=ptree.state.flags, full=True,
-                                allowed=lambda ch: ch in URLSAFE or ch in "\"'")
+                                allowed=lambda ch: ch in URLSAFE or ch in "\"'=")
     if cex is None:
         rr.ok("parser.attr_assignment_pair", "table attribute pairs are consumed in full by parse_attrs")
     else:
@@ -361,8 +361,18 @@ def rule_r8(ctx) -> RuleResult:
     return rr
 
 
+def rule_r9(ctx) -> RuleResult:
+    """Inside template/link arguments beginning-of-line processing is off; the nesting of these
+    constructs is counted, and the state is reset per parse (shared with C01.R7)."""
+    from ..core.report import shared
+    from . import c01
+
+    return shared(c01.rule_r7(ctx), "C03.R9", "beginning-of-line state inside nested arguments is counted and reset (shared with C01.R7)",
+                  "a nested {{..}} or [[..]] inside an argument switches list/preformatted recognition back on for the rest of the outer argument",
+                  min_instances=5)
+
 def run(ctx) -> list:
-    rules = [rule_r1(ctx), rule_r2(ctx), rule_r3(ctx)]
+    rules = [rule_r1(ctx), rule_r2(ctx), rule_r3(ctx), rule_r9(ctx)]
     rules.append(rule_r4(ctx))
     rules += [rule_r5(ctx), rule_r6(ctx), rule_r7(ctx), rule_r8(ctx)]
     return rules
